@@ -1,0 +1,19 @@
+//go:build verif
+
+// Contracts for gocv (see /verif/DESIGN.md). Comment-only file: takes no part in any build.
+
+package types
+
+// ---- state-key parsers (C12) ---------------------------------------------------------------------
+
+//@ smt (define-fun nodash ((b Bytes) (lo Int) (hi Int)) Bool (forall ((m Int)) (=> (and (<= lo m) (< m hi)) (not (= (bat b m) 45)))))
+
+// FindExecer: key = "mavl-" ++ e ++ "-" ++ rest with no '-' in e  <=>  result (e, nil)
+//@ func FindExecer [C12]
+//@   ensures result1 == nil ==> bhasprefix(bytes(key), "mavl-") && 5 + len(result0) < len(key) && key[5+len(result0)] == 45
+//@   ensures result1 == nil ==> nodash(bytes(key), 5, 5 + len(result0))
+//@   ensures result1 == nil ==> bytes(result0) == bsub(bytes(key), 5, 5 + len(result0))
+//@   ensures result1 != nil ==> !bhasprefix(bytes(key), "mavl-") || nodash(bytes(key), 5, len(key))
+//@   ensures !bhasprefix(bytes(key), "mavl-") ==> result1 == ErrMavlKeyNotStartWithMavl
+//@   loop 0 invariant 5 <= i && i <= len(key) && nodash(bytes(key), 5, i)
+//@   loop 0 decreases len(key) - i
